@@ -44,8 +44,8 @@ type c12Args struct {
 	Arity4 bool
 }
 
-var c12Hostile = []string{"", "a", "0", "-1", "1", "3", "99999999999999999999", "1.5", "x\r\ny", "\x00", "*", "NX", "WITHSCORES", "LIMIT"}
-var c12Reduced = []string{"", "a", "0", "-1", "x\r\ny", "LIMIT"}
+var c12Hostile = []string{"", "a", "0", "-1", "1", "3", "99999999999999999999", "1.5", "x\r\ny", "\x00", "*", "NX", "WITHSCORES", "LIMIT", "[a"}
+var c12Reduced = []string{"", "a", "0", "-1", "x\r\ny", "LIMIT", "[a"}
 
 func c12ArgClass(s string) string {
 	switch s {
@@ -113,8 +113,15 @@ func c12Commands() [][]string {
 	defer w.Close()
 	o := w.Do(cmd("COMMAND", "LIST"))
 	var out [][]string
+	parents := map[string]bool{}
 	for _, n := range o.V.Strs() {
-		out = append(out, strings.Fields(n))
+		f := strings.Fields(n)
+		out = append(out, f)
+		if len(f) > 1 && !parents[f[0]] {
+			// the bare parent of a sub-command family (ACL, COMMAND, PUBSUB ...) is a command line too
+			parents[f[0]] = true
+			out = append(out, f[:1])
+		}
 	}
 	if len(out) < 100 {
 		panic("COMMAND LIST too short: " + o.Brief())
@@ -185,6 +192,15 @@ func c12ArgsFacet(a c12Args, w *Worker, res *UnitResult) {
 	if a.Facet == "catalog" {
 		// realistic argument shapes: the whole command catalogue over its full domains on the standard dataset
 		all := catalogActions(fullDomains, nil)
+		// HELLO [protover [AUTH user password] [SETNAME name]]: every option sequence of up to four tokens after the
+		// protocol version (complete, truncated, repeated and reordered options)
+		for _, pv := range []string{"2", "3", "x"} {
+			for n := 0; n <= 4; n++ {
+				for _, v := range product([]string{"AUTH", "SETNAME", "default", "cli"}, n) {
+					all = append(all, cmd(append([]string{"HELLO", pv}, v...)...))
+				}
+			}
+		}
 		var mine []Action
 		for i, x := range all {
 			if i%a.Shards == a.Shard {
@@ -389,10 +405,12 @@ func c12SegFacet(a c12Args, w *Worker, res *UnitResult) {
 		}
 		var want []byte
 		var all []byte
+		wantUpTo := map[int]int{} // byte offset of the end of the k-th command -> length of the replies due by then
 		for _, c := range st {
 			o := ref.Do(cmd(c...))
 			want = append(want, o.Raw...)
 			all = append(all, encodeCmd(c)...)
+			wantUpTo[len(all)] = len(want)
 		}
 		ref.Close()
 		for _, cut := range cuts3(len(all)) {
@@ -411,6 +429,7 @@ func c12SegFacet(a c12Args, w *Worker, res *UnitResult) {
 			var got []byte
 			prev := 0
 			bad := ""
+			withheld := ""
 			for _, c := range append(append([]int{}, cut...), len(all)) {
 				o := wld.in.DoRaw(0, all[prev:c])
 				got = append(got, o.Raw...)
@@ -421,6 +440,17 @@ func c12SegFacet(a c12Args, w *Worker, res *UnitResult) {
 					bad = "hang"
 				}
 				prev = c
+				// promptness: once the server is idle, every command whose bytes have completely arrived has been
+				// answered - a client may wait for those replies before it sends the rest
+				due := 0
+				for end, n := range wantUpTo {
+					if end <= c && n > due {
+						due = n
+					}
+				}
+				if bad == "" && withheld == "" && len(got) < due {
+					withheld = fmt.Sprintf("after %d bytes (complete commands answered by %d reply bytes) only %d reply bytes had been sent", c, due, len(got))
+				}
 			}
 			res.Stats["evaluations"]++
 			// classification of the cut
@@ -455,6 +485,10 @@ func c12SegFacet(a c12Args, w *Worker, res *UnitResult) {
 				kind = "replies-differ"
 			}
 			res.Outcomes = append(res.Outcomes, hashJSON(string(got)))
+			if withheld != "" && kind == "" {
+				res.Findings = append(res.Findings, Finding{Prop: "C12", Kind: "reply-withheld", Sig: "segmentation|" + shape + "|reply-withheld",
+					Detail: fmt.Sprintf("stream %v written as segments cut at %v: %s", st, cut, withheld), Replay: map[string]any{"stream": st, "cuts": cut}, Cost: len(all)*10 + len(cut)})
+			}
 			if kind != "" {
 				res.Findings = append(res.Findings, Finding{Prop: "C12", Kind: kind, Sig: "segmentation|" + shape + "|" + kind,
 					Detail: fmt.Sprintf("stream %v (%d bytes) written as segments cut at %v: server wrote %q, one-command-per-write gives %q %s", st, len(all), cut, firstN(string(got), 160), firstN(string(want), 160), bad),
